@@ -307,7 +307,7 @@ def run(tier, seed):
             meta.append({"flags": args, "fouled": True, "outdir": od, "oarg": od, "repeat": False, "upload": None, "config": text, "how": "early action"})
         # the first recorded time is negative and the smallest (a spotlight reporting dates of a lagging clock before
         # the first action ends): the time range must still contain it
-        for n, (args, lag) in enumerate(((["-q"], 5), (["-k"], 90), ([], 3))):
+        for n, (args, lag) in enumerate(((["-q"], 5), (["-k"], 90), ([], 3), (["--disable-plots"], 4))):
             text = PASTPLAY % {"lag": lag, "lag2": lag - 1}
             plays.append(e2e.Play(text, args=args, outdir_arg="out", timeout=60, keep=True))
             meta.append({"flags": args, "fouled": False, "outdir": "out", "oarg": "out", "repeat": False, "upload": None, "config": text, "how": None, "past": True})
